@@ -97,13 +97,17 @@ NS_PREFIXES = ["", "ex", "v", "é", "p1", "p2", "long-prefix", "x_y"]
 
 
 def bindings(rng: random.Random, vocab_ns: list | None = None, k: int | None = None,
-             odd_labels: bool = False) -> list:
+             odd_labels: bool = False, shared_iri: bool = False) -> list:
     """1:1 ordered binding list (prefix, iri), avoiding rdflib's default prefixes/namespaces."""
     k = k if k is not None else rng.randint(1, 6)
     labels = NS_PREFIXES + ([" lead", "trail ", "ta\tb"] if odd_labels else [])
     prefixes = rng.sample(labels, min(k, len(labels)))
     pool = list(vocab_ns or gen.NAMESPACES) + ["urn:x:", "nosep", "http://ex.org/ns/a", "http://ex.org/ü/"]
     iris = rng.sample(pool, min(len(prefixes), len(pool)))
+    if shared_iri and len(iris) >= 2 and rng.random() < .4:
+        # two different prefixes for ONE namespace (generic sinks only: an rdflib store keeps one prefix per namespace)
+        a, b = rng.sample(range(len(iris)), 2)
+        iris[b] = iris[a]
     return list(zip(prefixes, iris))
 
 
